@@ -76,6 +76,45 @@ def strip_cv(t):
     return t
 
 
+def simplify_traits(t):
+    """evaluate the <type_traits> aliases that clang leaves unevaluated in function type strings"""
+    for _ in range(12):
+        m = None
+        for m in re.finditer(r'(?:typename )?std::(add_lvalue_reference_t|add_rvalue_reference_t|add_const_t|decay_t|remove_reference_t|remove_const_t|remove_cv_t|add_pointer_t|remove_pointer_t)<', t):
+            # innermost first: find the matching '>'
+            i = m.end(); d = 1; j = i
+            while j < len(t) and d:
+                d += t[j] == '<'; d -= t[j] == '>'; j += 1
+            inner = t[i:j - 1]
+            if re.search(r'std::(add_|decay_t|remove_)', inner):
+                continue
+            x = inner.strip()
+            k = m.group(1)
+            if k == 'add_lvalue_reference_t':
+                r = x if x.endswith('&') else x + ' &'
+            elif k == 'add_rvalue_reference_t':
+                r = x if x.endswith('&') else x + ' &&'
+            elif k == 'add_const_t':
+                r = x if (x.endswith('&') or x.startswith('const ')) else 'const ' + x
+            elif k in ('decay_t',):
+                r = strip_cv(x.rstrip('& ').strip())
+            elif k == 'remove_reference_t':
+                r = x.rstrip('& ').strip()
+            elif k in ('remove_const_t', 'remove_cv_t'):
+                r = strip_cv(x)
+            elif k == 'add_pointer_t':
+                r = x.rstrip('& ').strip() + ' *'
+            else:
+                r = x[:-1].strip() if x.endswith('*') else x
+            t = t[:m.start()] + r + t[j:]
+            break
+        else:
+            return t
+        if m is None:
+            return t
+    return t
+
+
 def split_top(s, sep=','):
     out, d, cur = [], 0, ''
     for ch in s:
@@ -366,6 +405,8 @@ class Lower:
                 out.append(q + '<' + ', '.join(parts) + '>')
         return out
 
+    DEFAULT_TARGS = {'xtl::xoptional': 'bool', 'xtl::xmasked_value': 'bool'}
+
     @staticmethod
     def strip_default_args(key):
         """clang elides defaulted template arguments when printing some types: index records under that spelling too"""
@@ -383,6 +424,12 @@ class Lower:
             r = self.rec_by_t.get(self.strip_default_args(key))
         if r is not None:
             return r
+        # trailing defaulted template arguments elided by the type printer (e.g. xoptional<int> for xoptional<int, bool>)
+        mm = re.fullmatch(r'([\w:]+)<(.*)>', key)
+        if mm and mm.group(1) in self.DEFAULT_TARGS:
+            r = self.rec_by_t.get('%s<%s,%s>' % (mm.group(1), mm.group(2), self.DEFAULT_TARGS[mm.group(1)]))
+            if r is not None:
+                return r
         if not hasattr(self, '_rec_miss'):
             self._rec_miss = {}
         if key in self._rec_miss:
@@ -446,6 +493,8 @@ class Lower:
         return '%s %s' % (self.ctype(t), name)
 
     def ctype(self, tstr):
+        if 'std::' in tstr and '_t<' in tstr:
+            tstr = simplify_traits(tstr)
         t = strip_cv(tstr)
         t = re.sub(r'\s+', ' ', t)
         t = re.sub(r'^(class|struct|enum) ', '', t)
@@ -717,6 +766,7 @@ class Lower:
         rt = self.ret_type_str(fn)
         if (rt == 'auto' or rt.startswith('auto ')) and '->' in t:
             rt = t.rsplit('->', 1)[1].strip()
+        rt = simplify_traits(rt)
         if 'decltype(' in rt or rt in ('auto', 'decltype(auto)', 'auto &&'):
             d = self.tu.definition(fn) or fn
             body = self.tu.body(d)
@@ -1653,9 +1703,11 @@ class Lower:
                 raise Unsupported('pointer to member')
             if op in ('*', '/', '%') and self.uf_mul:
                 ct = self.ctype(dq(n['type']))
-                if ct in ('unsigned int', 'unsigned long') and (op == '*' or self.uf_mul == 'muldiv'):
-                    nm = {'*': 'MUL', '/': 'DIV', '%': 'MOD'}[op]
+                nm = {'*': 'MUL', '/': 'DIV', '%': 'MOD'}[op]
+                if ct in ('unsigned int', 'unsigned long') and (op == '*' or self.uf_mul in ('muldiv', 'all')):
                     return 'XV_U%s%d(%s, %s)' % (nm, 32 if ct == 'unsigned int' else 64, self.rv(l), self.rv(r))
+                if ct in ('int', 'long') and self.uf_mul == 'all':
+                    return 'XV_S%s%d(%s, %s)' % (nm, 32 if ct == 'int' else 64, self.rv(l), self.rv(r))
             return '(%s %s %s)' % (self.rv(l), op, self.rv(r))
         if k == 'CompoundAssignOperator':
             l, r = n['inner']
@@ -1666,6 +1718,8 @@ class Lower:
             ll = self.lv(l)
             if op == '*' and self.uf_mul and ct in ('unsigned int', 'unsigned long') and self.ctype(comp) == ct and self.ctype(lt) == ct:
                 return '(%s = XV_UMUL%d(%s, %s))' % (ll, 32 if ct == 'unsigned int' else 64, ll, self.rv(r))
+            if op in ('*', '/', '%') and self.uf_mul == 'all' and ct in ('int', 'long') and self.ctype(comp) == ct and self.ctype(lt) == ct:
+                return '(%s = XV_S%s%d(%s, %s))' % (ll, {'*': 'MUL', '/': 'DIV', '%': 'MOD'}[op], 32 if ct == 'int' else 64, ll, self.rv(r))
             # make the usual arithmetic conversions of C++ explicit
             if self.ctype(lt) != ct or self.ctype(comp) != ct:
                 return '(%s = (%s)((%s)%s %s %s))' % (ll, ct, self.ctype(lt), ll, op, self.rv(r))
